@@ -35,7 +35,9 @@ def gen(rng):
     lockmode = rng.choice(["absent", "disabled", "ahead"])
     wm = world.gen_world_model(rng, use_cache={"absent": rng.choice([True, None]), "disabled": False,
                                                "ahead": rng.choice([True, None])}[lockmode],
-                               nfiles=rng.randrange(1, 7), sizes=["tiny", "tiny", "tiny", "k8"], p_have=rng.choice([0.2, 0.5, 0.8]),
+                               nfiles=rng.randrange(1, 7),
+                               sizes=["tiny", "tiny", "tiny", "k8"] if rng.random() > 0.03 else ["tiny", "k256", "k600"],
+                               p_have=rng.choice([0.2, 0.5, 0.8]),
                                id_hi=hi, lock="absent", max_stmts=4, min_missing=rng.choice([0, 1, 1, 2, 3]),
                                special_ids=special, many=rng.choice([100, 256, 700]) if rng.random() < 0.02 else None,
                                many_files=rng.choice([64, 255, 256, 257, 300]) if rng.random() < 0.015 else None)
